@@ -74,22 +74,27 @@ def main():
                                     'ev': ev}, separators=(',', ':')) + '\n')
                 n += 1
     # pipe relay: a child that outlives the configured timeout
-    if shard == 0:
+    # (per-recipient mode, recipients, index of the recipient whose delivery program outlives the timeout, the program ignores
+    # SIGTERM: whatever the relay does about the child it has given up on must not take longer than the timeout either)
+    PIPE_CASES = [(True, 1, 0, 0), (False, 1, 0, 0), (True, 2, 0, 0), (True, 2, 1, 0), (True, 3, 1, 0), (True, 3, 2, 0), (False, 3, 0, 0),
+                  (True, 1, 0, 1), (False, 1, 0, 1), (True, 2, 1, 1), (True, 3, 0, 1)]
+    my_pipe = [c for j, c in enumerate(PIPE_CASES) if (3 + 5 * j) % nshards == shard]
+    if my_pipe:
         from slimta.envelope import Envelope
         from slimta.relay import TransientRelayError, PermanentRelayError
         from slimta.relay.pipe import PipeRelay
         import tempfile
         import time as _rt
         mdir = tempfile.mkdtemp(prefix='c14pipe', dir=os.path.dirname(out))
-        # (per-recipient mode, recipients, index of the recipient whose delivery program outlives the timeout)
-        for per, nr, k in ((True, 1, 0), (False, 1, 0), (True, 2, 0), (True, 2, 1), (True, 3, 1), (True, 3, 2), (False, 3, 0)):
+        for per, nr, k, trap in my_pipe:
             vt.CLOCK.reset(1000.0)
             cls = type('P', (PipeRelay,), {'per_recipient': per})
-            marker = os.path.join(mdir, 'm-%d-%d-%d' % (per, nr, k))
+            marker = os.path.join(mdir, 'm-%d-%d-%d-%d' % (per, nr, k, trap))
+            tr_ = "trap '' TERM; " if trap else ''
             if per:
-                sh = 'case "$1" in r%d@*) touch %s; sleep 2;; esac; cat >/dev/null' % (k, marker)
+                sh = tr_ + 'case "$1" in r%d@*) touch %s; sleep 2;; esac; cat >/dev/null' % (k, marker)
             else:
-                sh = 'touch %s; sleep 2' % marker
+                sh = tr_ + 'touch %s; sleep 2' % marker
             relay = cls(['sh', '-c', sh, 'x', '{recipient}'], timeout=7)
             env = Envelope('s@x', ['r%d@x' % i for i in range(nr)])
             env.parse(b'Subject: t\r\n\r\nbody\r\n')
